@@ -71,3 +71,9 @@ package annotation
 //@ ensures explicit-deep-annotation-kept (=> (and (old (mapin set name)) (old (. (mapget set name) IsDeepNilableSet))) (and result.IsDeepNilableSet (= result.IsDeepNilable (old (. (mapget set name) IsDeepNilable)))))
 //@ ensures defaults-are-never-set (=> (and (not (. (global EmptyVal) IsNilableSet)) (not (. (global EmptyVal) IsDeepNilableSet)))
 //@    (and (=> result.IsNilableSet (and (old (mapin set name)) (old (. (mapget set name) IsNilableSet)))) (=> result.IsDeepNilableSet (and (old (mapin set name)) (old (. (mapget set name) IsDeepNilableSet))))))
+
+//@ -- C04: comparators used to sort what was collected from a map must separate distinct elements (an unstable sort
+//@ -- leaves tied elements in an order that depends on the input, i.e. on the map's iteration order)
+//@ func (FieldPath).Compare
+//@ prop C04
+//@ ensures zero-only-for-equal-paths (= (= result 0) (= p other))
